@@ -242,6 +242,39 @@ fn op_standalone(c: &Case, out: &mut Out) {
     }
 }
 
+fn show<T: quote::ToTokens>(t: &T) -> String {
+    t.to_token_stream().to_string().replace(' ', "")
+}
+/// settings validation against the registry + similar-path queries
+fn op_validate(c: &Case, out: &mut Out) {
+    let reg = registry(c);
+    let Some(s) = settings(c, out) else { return };
+    match scale_typegen::typegen::validation::validate_substitutes_and_derives_against_registry(&s.substitutes, &s.derives, &reg) {
+        Ok(()) => out.put("result", "Ok"),
+        Err(e) => {
+            out.put("result", "Err");
+            for (p, ds) in &e.derives_for_unknown_types {
+                let mut v: Vec<String> = ds.iter().map(show).collect();
+                v.sort();
+                out.put("derives", format!("{}|{}", show(p), v.join(",")));
+            }
+            for (p, ds) in &e.attributes_for_unknown_types {
+                let mut v: Vec<String> = ds.iter().map(show).collect();
+                v.sort();
+                out.put("attrs", format!("{}|{}", show(p), v.join(",")));
+            }
+            for (p, t) in &e.substitutes_for_unknown_types {
+                out.put("substs", format!("{}|{}", show(p), show(t)));
+            }
+        }
+    }
+    for q in get_all(c, "similar") {
+        let p: syn::Path = syn::parse_str(q).expect("path");
+        let v: Vec<String> = scale_typegen::typegen::validation::similar_type_paths_in_registry(&reg, &p).iter().map(show).collect();
+        out.put(&format!("similar_{}", q.replace(' ', "")), v.join(","));
+    }
+}
+
 fn run_case(c: &Case, out: &mut Out) {
     match get(c, "op").unwrap_or("") {
         "fmt" => op_fmt(c, out),
@@ -249,6 +282,7 @@ fn run_case(c: &Case, out: &mut Out) {
         "dedup" => op_dedup(c, out),
         "gen" => op_gen(c, out),
         "standalone" => op_standalone(c, out),
+        "validate" => op_validate(c, out),
         "corpus" => {
             use parity_scale_codec::Encode;
             for (name, reg) in corpus::all() {
